@@ -168,6 +168,105 @@ def subPotsOfPot (s : State) (i : Nat) (pot : Pot) : Except Err (List SubPot) :=
               let a := if some k == hts.head? then sq + sr else sq
               if a != 0 then some ⟨a, i, some j, some k⟩ else none)) (.ok [])
 
+/-- `collect_bets`: the players whose bets are collected and the reported bets; a lone
+    survivor keeps his bet in front of him (state.py:3219-3226) -/
+def collectPlayers (s : State) : List Nat × List Int :=
+  if s.liveCount == 1 then
+    let p := (firstTrue s.statuses).getD 0
+    ((playerIndices cfg).erase p, s.bets.set p 0)
+  else (playerIndices cfg, s.bets)
+
+/-- `sorted(self.bets)[-2]` -/
+def betCutoff (bets : List Int) : Int :=
+  let sorted := sortI bets
+  sorted.getD (sorted.length - 2) 0
+
+/-- one round of the loop returning the uncalled part of a bet above the cutoff
+    (state.py:3231-3236) -/
+def refundStep (cutoff : Int) (acc : State × List Int) (i : Nat) : State × List Int :=
+  if getI acc.1.bets i > cutoff then
+    ({ acc.1 with stacks := acc.1.stacks.set i (getI acc.1.stacks i + (getI acc.1.bets i - cutoff))
+                  payoffs := acc.1.payoffs.set i (getI acc.1.payoffs i + (getI acc.1.bets i - cutoff)) },
+     acc.2.set i cutoff)
+  else acc
+
+/-- `for i in winners: bets[i] += quotient (+ remainder for the first winner)`
+    (state.py:6134-6142) -/
+def awardShares (winners : List Nat) (q r : Int) (bets : List Int) : List Int :=
+  winners.foldl (fun bets i =>
+    bets.set i (getI bets i + (if some i == winners.head? then q + r else q))) bets
+
+/-- the body of `collect_bets` after verification (state.py:3218-3239): new state and the
+    reported bets -/
+def collectBets (s : State) : State × List Int :=
+  let s1 := { s with betCollection := false }
+  let pb := collectPlayers cfg s1
+  let sb :=
+    if (s1.street cfg).isSome || cfg.anteTrim then
+      pb.1.foldl (refundStep (betCutoff s1.bets)) (s1, pb.2)
+    else (s1, pb.2)
+  ({ sb.1 with bets := pb.1.foldl (fun b i => b.set i 0) sb.1.bets }, sb.2)
+
+/-- `_begin_chips_pushing` (state.py:5972-6017) after its two asserts: freeze the pots and
+    build the queue of sub-pots.  An escaping exception leaves the state as far as it got. -/
+def freezePots (s : State) : Except (State × Err) State :=
+  let s := { s with streetIndex := none }
+  match s.pots cfg with
+  | .error e => .error (s, e)
+  | .ok ps =>
+    let s := { s with pots_ := some ps }
+    if s.liveCount == 1 then
+      .ok { s with subPots := (ps.zipIdx).map fun (pot, i) => (⟨pot.unraked, i, none, none⟩ : SubPot) }
+    else if s.liveCount > 1 then
+      match (ps.zipIdx).foldl (fun (acc : Except Err (List SubPot)) (pot, i) =>
+          match acc with
+          | .error e => .error e
+          | .ok out => match subPotsOfPot cfg env s i pot with
+            | .error e => .error e
+            | .ok l => .ok (out ++ l)) (.ok []) with
+      | .error e => .error (s, e)
+      | .ok sp => .ok { s with subPots := sp }
+    else .ok s
+
+/-- `push_chips` (state.py:6106-6154) after verification, for the sub-pot `sp` at the head of
+    the queue: new state and logged operation, or the state left behind by an escaping
+    exception -/
+def pushChips (s : State) (ps : List Pot) (sp : SubPot) (sps : List SubPot) :
+    Except (State × Err) (State × Operation) :=
+  match ps[sp.pot]? with
+  | none => .error (s, .indexError)
+  | some pot =>
+    let pot' := { pot with unraked := pot.unraked - sp.amount }
+    let s := { s with subPots := sps, pots_ := some (ps.set sp.pot pot') }
+    if pot'.unraked < 0 then .error (s, .assertionError)
+    else if s.liveCount == 1 then
+      match pot.players with
+      | [w] =>
+        if sp.board.isSome || sp.handType.isSome then .error (s, .assertionError)
+        else
+          let bets := s.bets.set w (getI s.bets w + sp.amount)
+          let amounts := (playerIndices cfg).map fun i => getI bets i - getI s.bets i
+          .ok ({ s with bets := bets }, .chipsPushing amounts sp.pot none none)
+      | _ => .error (s, .assertionError)
+    else
+      match sp.board, sp.handType with
+      | some b, some k =>
+        if !((b : Int) < s.boardCount cfg && k < cfg.handTypes.length) then .error (s, .assertionError)
+        else match s.getUpHands cfg env b k with
+          | .error e => .error (s, e)
+          | .ok hands =>
+            let maxHand := maxOrNone (pot.players.map fun i => hands.getD i none)
+            let winners := pot.players.filter fun i => hands.getD i none == maxHand
+            match State.divmod cfg sp.amount winners.length with
+            | .error e => .error (s, e)
+            | .ok (q, r) =>
+              if winners.any (fun i => !getB s.statuses i) then .error (s, .assertionError)
+              else
+                let bets := awardShares winners q r s.bets
+                let amounts := (playerIndices cfg).map fun i => getI bets i - getI s.bets i
+                .ok ({ s with bets := bets }, .chipsPushing amounts sp.pot (some b) (some k))
+      | _, _ => .error (s, .assertionError)
+
 /-- `try: verify(...) except (ValueError, UserWarning): return False; return True` -/
 def canOf (r : Except Err α) : Except Err Bool :=
   match r with
@@ -244,27 +343,8 @@ def step (m : M) : M :=
     | .ok () =>
       if !s.bets.any (· != 0) then m.raise .assertionError
       else
-        let s := { s with betCollection := false }
-        let (players, bets) :=
-          if s.liveCount == 1 then
-            let p := (firstTrue s.statuses).getD 0
-            ((playerIndices cfg).erase p, s.bets.set p 0)
-          else (playerIndices cfg, s.bets)
-        let (s, bets) :=
-          if (s.street cfg).isSome || cfg.anteTrim then
-            let sorted := sortI s.bets
-            let cutoff := sorted.getD (sorted.length - 2) 0
-            players.foldl (fun (acc : State × List Int) i =>
-              let (s, bets) := acc
-              if getI s.bets i > cutoff then
-                let over := getI s.bets i - cutoff
-                ({ s with stacks := s.stacks.set i (getI s.stacks i + over)
-                          payoffs := s.payoffs.set i (getI s.payoffs i + over) },
-                 bets.set i cutoff)
-              else (s, bets)) (s, bets)
-          else (s, bets)
-        let s := { s with bets := players.foldl (fun b i => b.set i 0) s.bets }
-        m.cont s [.updCollect (some (.betCollection bets))] rest
+        let r := collectBets cfg s
+        m.cont r.1 [.updCollect (some (.betCollection r.2))] rest
   /- ---------------- blinds / straddles ---------------- -/
   | .beginBlind =>
     if anyB s.blindPosting then m.raise .assertionError
@@ -653,26 +733,9 @@ def step (m : M) : M :=
   /- ---------------- chips pushing ---------------- -/
   | .beginPush =>
     if s.pots_.isSome || !s.subPots.isEmpty then m.raise .assertionError
-    else
-      let s := { s with streetIndex := none }
-      match s.pots cfg with
-      | .error e => { m with st := s, ctl := [], err := some e }
-      | .ok ps =>
-        let s := { s with pots_ := some ps }
-        if s.liveCount == 1 then
-          let sp := (ps.zipIdx).map fun (pot, i) => (⟨pot.unraked, i, none, none⟩ : SubPot)
-          m.cont { s with subPots := sp } [.updPush none] rest
-        else if s.liveCount > 1 then
-          let r := (ps.zipIdx).foldl (fun (acc : Except Err (List SubPot)) (pot, i) =>
-            match acc with
-            | .error e => .error e
-            | .ok out => match subPotsOfPot cfg env s i pot with
-              | .error e => .error e
-              | .ok l => .ok (out ++ l)) (.ok [])
-          match r with
-          | .error e => { m with st := s, ctl := [], err := some e }
-          | .ok sp => m.cont { s with subPots := sp } [.updPush none] rest
-        else m.cont s [.updPush none] rest
+    else match freezePots cfg env s with
+      | .error (s', e) => { m with st := s', ctl := [], err := some e }
+      | .ok s' => m.cont s' [.updPush none] rest
   | .updPush op =>
     let s := log s op
     if s.subPots.isEmpty then m.cont s [.endPush] rest
@@ -687,43 +750,9 @@ def step (m : M) : M :=
     match s.verifyChipsPushing, s.pots_, s.subPots with
     | .error e, _, _ => m.raise e
     | .ok (), some ps, sp :: sps =>
-      match ps[sp.pot]? with
-      | none => m.raise .indexError
-      | some pot =>
-        let pot' := { pot with unraked := pot.unraked - sp.amount }
-        let s := { s with subPots := sps, pots_ := some (ps.set sp.pot pot') }
-        let fail (e : Err) : M := { m with st := s, ctl := [], err := some e }
-        if pot'.unraked < 0 then fail .assertionError
-        else if s.liveCount == 1 then
-          match pot.players with
-          | [w] =>
-            if sp.board.isSome || sp.handType.isSome then fail .assertionError
-            else
-              let bets := s.bets.set w (getI s.bets w + sp.amount)
-              let amounts := (playerIndices cfg).map fun i => getI bets i - getI s.bets i
-              m.cont { s with bets := bets }
-                [.updPush (some (.chipsPushing amounts sp.pot none none))] rest
-          | _ => fail .assertionError
-        else
-          match sp.board, sp.handType with
-          | some b, some k =>
-            if !((b : Int) < s.boardCount cfg && k < cfg.handTypes.length) then fail .assertionError
-            else match s.getUpHands cfg env b k with
-              | .error e => fail e
-              | .ok hands =>
-                let maxHand := maxOrNone (pot.players.map fun i => hands.getD i none)
-                let winners := pot.players.filter fun i => hands.getD i none == maxHand
-                match State.divmod cfg sp.amount winners.length with
-                | .error e => fail e
-                | .ok (q, r) =>
-                  if winners.any (fun i => !getB s.statuses i) then fail .assertionError
-                  else
-                    let bets := winners.foldl (fun bets i =>
-                      bets.set i (getI bets i + (if some i == winners.head? then q + r else q))) s.bets
-                    let amounts := (playerIndices cfg).map fun i => getI bets i - getI s.bets i
-                    m.cont { s with bets := bets }
-                      [.updPush (some (.chipsPushing amounts sp.pot (some b) (some k)))] rest
-          | _, _ => fail .assertionError
+      match pushChips cfg env s ps sp sps with
+      | .error (s', e) => { m with st := s', ctl := [], err := some e }
+      | .ok (s', op) => m.cont s' [.updPush (some op)] rest
     | _, _, _ => m.raise .assertionError
   /- ---------------- chips pulling ---------------- -/
   | .beginPull =>
